@@ -88,7 +88,12 @@ rc::Gen<uint8_t> genPay(int pct) {
 }
 
 // a state-id operand: mostly small (so that small machines see every id often), sometimes the whole byte range (ids beyond 40 on the big machines)
-int genId() { return *rng<int>(0, 4) == 0 ? *rng<int>(0, 256) : *rng<int>(0, 40); }
+int genId() {
+	const int r = *rng<int>(0, 20);
+	if (r < 3) return *rng<int>(0, 256);
+	if (r < 6) return *rng<int>(60, 70);   // around the word boundary of a 64-bit mask (ids 64..69 exist on the 70-state member)
+	return *rng<int>(0, 40);
+}
 
 rc::Gen<Action> genAction(const Profile& p) {
 	return rc::gen::exec([&p]() {
